@@ -491,6 +491,24 @@ Proof.
   intros w Hw. e3_cbn. rewrite e3_get_set_other by exact Hw. exact (e3_recheck_get _ _ _ _ _ _ Hre w).
 Qed.
 
+(* ---- transient failure of a store read ------------------------------------------------------------------------- *)
+(* every failing case is a non-publishing [finish] to [PFinished] (after [unlock] at [PLocked]); the SaveMeta case is
+   the pc move [enter_exec] performs when the transaction is found *)
+Lemma inv_resume_read_fail : forall s t s', Inv s -> resume_read_fail s t = Some s' -> Inv s'.
+Proof.
+  intros s t s' I H. unfold resume_read_fail in H. cbv zeta in H.
+  head_destruct H.
+  all: inversion H; subst s'; clear H.
+  all: try (match goal with |- context [unlock ?t ?u] => destruct (e3_unlock_spec t u) as (q & ths & locks & Hre & Hun); rewrite Hun; clear Hun end).
+  all: repeat match goal with |- context [match ?x with _ => _ end] => destruct x eqn:? end.
+  all: match goal with Hg : get_thread (threads ?s) ?t = Some ?t0, I : Inv ?s |- _ =>
+         pose proof (inv_th s I t t0 Hg) as Hok;
+         eapply (inv_thread_step s _ t (Some t0) _ I Hg);
+         [ nf_tac | try reflexivity | try others_tac | try me_tac | try req_tac | try tok_tac | try bat_tac | try (ent_tac t0) | try pub_tac | try (resp_tac t0) ] end.
+  all: try solve [apply he_dry; assumption].
+  intros w Hw. e3_cbn. rewrite e3_get_set_other by exact Hw. exact (e3_recheck_get _ _ _ _ _ _ Hre w).
+Qed.
+
 Lemma inv_init : Inv init.
 Proof.
   constructor.
@@ -512,6 +530,7 @@ Proof.
   - inversion H; subst. apply inv_crash. exact I.
   - eapply inv_cancel; eauto.
   - eapply inv_resume_cancelled; eauto.
+  - eapply inv_resume_read_fail; eauto.
 Qed.
 
 Theorem inv_reachable : forall s, reachable s -> Inv s.
@@ -551,6 +570,30 @@ Proof.
   intros s t th R Hg Hr ev Hin E.
   destruct (e3_event_publisher_succeeded s R ev Hin) as (th' & x & G & _ & Hr').
   rewrite E, Hg in G. inversion G; subst th'. rewrite Hr in Hr'. discriminate Hr'.
+Qed.
+
+(* ---- store read failures: a failed read publishes and writes nothing ------------------------------------------- *)
+(* from ANY state.  The failing cases are a [finish] with [publish = false]; the one non-failing case (SaveMeta: the
+   code ignores the error of GetTransaction) is a pc move: its event, if any, comes later, from the ordinary [resume]
+   at [PDone] after its entry has been persisted *)
+Theorem e3_read_failed_publishes_nothing : forall s t s',
+  step s (AResumeReadFail t) = Some s' -> published s' = published s /\ persisted s' = persisted s.
+Proof.
+  intros s t s' H. simpl in H. unfold resume_read_fail in H. cbv zeta in H. head_destruct H.
+  all: inversion H; subst s'; clear H.
+  all: try (destruct (e3_unlock_spec t (of_state s)) as (q & ths & locks & _ & Hun); rewrite Hun; clear Hun).
+  all: split; reflexivity.
+Qed.
+
+(* a request that answered a read failure (store read, or the compilation error a failed metadata read becomes)
+   owns no event *)
+Theorem e3_read_failed_no_event : forall s t th, reachable s -> get_thread (threads s) t = Some th ->
+  (t_resp th = Some (RErr EStoreRead) \/ t_resp th = Some (RErr ECompilationFailed)) ->
+  forall ev, In ev (published s) -> ev_tid ev <> t.
+Proof.
+  intros s t th R Hg Hr ev Hin E.
+  destruct (e3_event_publisher_succeeded s R ev Hin) as (th' & x & G & _ & Hr').
+  rewrite E, Hg in G. inversion G; subst th'. destruct Hr as [Hr|Hr]; rewrite Hr in Hr'; discriminate Hr'.
 Qed.
 
 (* what holds unconditionally: every event was published by a non-preview request of the event's kind when an
